@@ -452,7 +452,7 @@ func runCase(c *core.Ctx, r *core.Result, stream string, i int, rng *rand.Rand, 
 		// FIX asks for a Logout in answer to an invalid Logon; the statement mandates no other reaction for it
 		accept = append(accept, "logout")
 	}
-	if cs.V34 == "high" && got == "" && len(rx.Outs) <= 1 && strings.HasPrefix(cs.defects(), "body=") {
+	if cs.V34 == "high" && got == "" && len(rx.Outs) <= 1 && len(accept) == 1 && accept[0] == "validation" {
 		return // the message is ahead of sequence: it is held (at most a ResendRequest goes out) and judged when its turn comes
 	}
 	ok := false
